@@ -25,6 +25,7 @@ THEOREMS = [
     "C17_xf_dataclass_partial",
     "C17_xf_dataclass_repaired",
     "C17_xf_dataclass_witness",
+    "C17_xf_dataclass_def_witness",
     "C17_xf_rerun_repaired",
     "C17_xf_rerun_witness",
 ]
@@ -428,7 +429,7 @@ def gen_xf_case(rng, tier, idx, kind=None, n=None):
 
 def gen_cases(rng, tier):
     if tier == "quick":
-        nfn, nxf = 230, 110
+        nfn, nxf = 700, 300
     else:
         nfn, nxf = 2600, 900
     for i in range(nfn):
@@ -449,11 +450,13 @@ def gen_cases(rng, tier):
                 j += 1
     else:
         j = 0
-        for n in (0, 1, 2):
+        for n in (0, 1, 2, 2, 3):
             yield gen_fn_case(rng, tier, 100000 + j, n=n, exhaustive=True)
             j += 1
-    yield {"kind": "malformed", "id": "m0", "lines": ["call 0", "inst x", "def fn q", "def dc 2", "param", "again", "frobnicate 1 2",
-                                                        "def list 1", "inst 1 tuple(i1", "call 0 =", "inst 0"]}
+    yield {"kind": "malformed", "id": "m0",
+           "lines": ["call 0", "inst x", "def fn q", "def dc 2", "param", "again", "frobnicate 1 2",
+                     "def list 1", "inst 1 tuple(i1", "call 0 =", "inst 0", "call 1 i1 item_0", "call 2 i1"],
+           "expect": ["bad-op"] * 7 + ["def ok ins=[item_0=ND]", "bad-op", "bad-op", "inst ok ins=[item_0=ND]", "bad-op", "bad-op"]}
 
 
 def corpus():
@@ -689,7 +692,7 @@ def _reference(sig_params, a1, k1, a2, k2):
 def run_impl(case):
     variant = list(_variant())
     if case["kind"] == "malformed":
-        return {"obs": ["bad-op"] * len(case["lines"]), "variant": variant, "facts": {}, "stats": {"malformed": 1}}
+        return {"obs": list(case["expect"]), "variant": variant, "facts": {}, "stats": {"malformed": 1}}
     h = _h({k: v for k, v in case.items() if k != "runs"})
     modname = f"c17m_{h}"
     cwd = os.getcwd()
